@@ -533,7 +533,8 @@ func judgeCache(w *cacheWorld, res *Result, snaps []*cacheSnapshot) {
 		if size, ok := okPut[k][e.MetaObj0.V]; ok && e.MetaObj0.K == k && len(e.Got) == size && bodyEquals(e.Got, k, e.MetaObj0.V) {
 			matched = e.MetaObj0.V
 		}
-		for v, size := range okPut[k] {
+		for _, v := range sortedIntKeys(okPut[k]) {
+			size := okPut[k][v]
 			if matched >= 0 {
 				break
 			}
@@ -545,7 +546,8 @@ func judgeCache(w *cacheWorld, res *Result, snaps []*cacheSnapshot) {
 		if matched < 0 {
 			// describe what it is instead
 			desc := "no stored version"
-			for v, pe := range anyPut[k] {
+			for _, v := range sortedIntKeys(anyPut[k]) {
+				pe := anyPut[k][v]
 				full := body(k, v, pe.Op.Size)
 				d := firstDiff(e.Got, full)
 				if d == -1 {
@@ -644,6 +646,15 @@ func judgeCache(w *cacheWorld, res *Result, snaps []*cacheSnapshot) {
 	}
 }
 
+func sortedIntKeys[V any](m map[int]V) []int {
+	ks := make([]int, 0, len(m))
+	for k := range m {
+		ks = append(ks, k)
+	}
+	sort.Ints(ks)
+	return ks
+}
+
 // --- porcupine model: one register per key -----------------------------------
 
 type linIn struct {
@@ -723,7 +734,8 @@ func checkLinearizable(w *cacheWorld, res *Result, okPut map[int]map[int]int, si
 		},
 	}
 	m := model.ToModel()
-	for k, ops := range byKey {
+	for _, k := range sortedIntKeys(byKey) {
+		ops := byKey[k]
 		if len(ops) > 40 {
 			res.Notes = append(res.Notes, "history too long for porcupine")
 			continue
